@@ -15,6 +15,10 @@ Inductive case :=
 | CStream (up : bool) (h : hist) (bytes : list N) (o : outcome (list item))
 (* a command sequence: marshalled one by one, concatenated, decoded *)
 | CCmds (up : bool) (h : hist) (cmds : list item) (o_enc : outcome (list N)) (o_dec : outcome (list item))
+(* a sequence in which the harness has made at least one command inconsistent with the registry of that
+   moment (a CID without the payload it has, with a payload it does not have, a proprietary payload whose
+   length is not the registered size): finding C07-8 *)
+| CCmdsUnchecked (up : bool) (h : hist) (cmds : list item) (o_enc : outcome (list N)) (o_dec : outcome (list item))
 (* registration history: result of each call, then probes of the registry *)
 | CHist (h : hist) (oks : list bool) (probes : list ((bool * N) * option (Z * kind))).
 
@@ -47,14 +51,15 @@ Definition item_resolution (it : item) : item :=
   match it with IMac c (Some v) => IMac c (Some (wire_resolution v)) | _ => it end.
 
 (* the registration rule, written independently of the code: for a proprietary
-   CID the last registration with a positive size wins, in that direction only *)
+   CID the last accepted registration (size >= 0) wins, in that direction only;
+   a positive size is the framing size, size 0 = no payload = no entry *)
 Fixpoint spec_entry (h : hist) (up : bool) (cid : N) (cur : option (Z * kind)) : option (Z * kind) :=
   match h with
   | [] => cur
   | (u, c, sz) :: h' =>
     spec_entry h' up cid
-      (if Bool.eqb u up && (c =? cid) && (128 <=? c) && (c <=? 255) && (0 <? sz)%Z
-       then Some (sz, KProprietary) else cur)
+      (if Bool.eqb u up && (c =? cid) && (128 <=? c) && (c <=? 255) && (0 <=? sz)%Z
+       then (if (0 <? sz)%Z then Some (sz, KProprietary) else None) else cur)
   end.
 Definition spec_reg_ok (x : bool * N * Z) : bool :=
   let '(_, c, sz) := x in (128 <=? c) && (c <=? 255) && (0 <=? sz)%Z.
@@ -86,6 +91,19 @@ Definition check (c : case) : N :=
          (if forallb (wf_cmd r up) cmds
           then is_ok o_enc && ieqb o_dec (Ok (map item_resolution cmds))
           else true)
+  | CCmdsUnchecked up h cmds o_enc o_dec =>
+    let r := reg_of h in
+    code (oeqb (encode_cmds cmds) o_enc &&
+          match o_enc with Ok bs => ieqb (decode_stream r up bs) o_dec | _ => true end)
+         (* the statement without the premise "payload = what the registry holds": an error, or exactly
+            the sequence.  A sequence that IS consistent does not belong here: reported as a failure of
+            the harness's bookkeeping (code 2 under a key no recorded finding matches is impossible:
+            the harness keys consistent sequences `cmds:`) *)
+         (match o_enc with
+          | Ok _ => ieqb o_dec (Ok (map item_resolution cmds))
+          | Err => true
+          | _ => false
+          end)
   | CHist h oks probes =>
     let r := reg_of h in
     code (list_eqb Bool.eqb (results builtin_registry h) oks &&
